@@ -274,6 +274,12 @@ def run_check(mod, tier, seed, replay=None):
             return 1
         return 0
 
+    # stale replay files of earlier runs of this property are removed so the directory reflects this run
+    rdir = os.path.join(VERIF, "replays")
+    if os.path.isdir(rdir):
+        for fn in os.listdir(rdir):
+            if fn.startswith(prop + "-") and fn.endswith(".json"):
+                os.remove(os.path.join(rdir, fn))
     total = Stats()
     fail_stage = {}
     per_stage = {}
